@@ -18,6 +18,8 @@ import (
 	"fmt"
 	"go/ast"
 	"go/format"
+	"go/parser"
+	"go/token"
 	"go/types"
 	"log"
 	"os"
@@ -160,6 +162,10 @@ func newPackage(program *loader.Program, pkgInfo *loader.PackageInfo, plugins []
 		}
 
 		if changed {
+			// a file that does not parse is only partly represented by its syntax tree, printing it would lose the rest.
+			if _, err := parser.ParseFile(token.NewFileSet(), fileInfo.fullpath, nil, parser.ParseComments); err != nil {
+				return nil, fmt.Errorf("cannot rename the function calls in %s, since it does not parse: %v", fileInfo.fullpath, err)
+			}
 			info, err := os.Stat(fileInfo.fullpath)
 			if err != nil {
 				return nil, fmt.Errorf("stat %s: %v", fileInfo.fullpath, err)
